@@ -15,7 +15,7 @@ from ..anf import Rat, sym
 from ..guards import G, TRUE, g_and, g_not, g_equiv, g_implies, g_sat, compare, canon_sign, OPS
 from ..gvn import Obj, PW, Vec, cases_of, Unsupported
 from ..ref import ref
-from .common import RuleCtx, judge, _short
+from .common import section, RuleCtx, judge, _short
 
 METRIC_REFS = {
     "rmse": "sqrt(Sum((y - y_hat)**2) / N)",
@@ -66,6 +66,33 @@ def _metric_env(rc: RuleCtx):
     eps = ev.symbol("eps")
     ev.len_map = {"y": sym("N"), "y_hat": sym("N"), "x": sym("N"), "points": sym("N")}
     return ev, {"y": y, "y_hat": yh, "eps": eps}
+
+
+def _check_adjusted_of_classic(rc: RuleCtx, rule: str, fi, classic, adjusted, n: Rat, what: str):
+    """"Adjusted variants apply the (n-1)/(n-2) correction": on every path - the constant-y convention included - the adjusted
+    value is 1 - (1 - v)(n-1)/(n-2) of the value v the same function returns as classic R2 there."""
+    res = rc.res
+    ok = True
+    for g1, v1 in cases_of(classic):
+        for g2, v2 in cases_of(adjusted):
+            if not g_sat(g_and(g1, g2)):
+                continue
+            if not (isinstance(v1, Rat) and isinstance(v2, Rat)):
+                continue
+            want = Rat.const(1) - (Rat.const(1) - v1) * ((n - Rat.const(1)) / (n - Rat.const(2)))
+            verdict, why = judge(v2, want)
+            if verdict == "equal":
+                continue
+            ok = False
+            if verdict == "inconclusive":
+                res.error(f"INCONCLUSIVE {rule} {fi.qualname} ({what}): {why}")
+            else:
+                res.violation(rule, fi.module, fi.name, fi.node,
+                              f"{what}: under {g_and(g1, g2)} the adjusted value is not the (n-1)/(n-2) correction of the classic value returned there ({why})",
+                              _short(v2), _short(want), construct=what + " adjusted of classic")
+    if ok:
+        res.ok(rule, fi.qualname, f"{what}: adjusted == 1 - (1 - classic)(n-1)/(n-2) on every path (constant-y convention included)")
+    return ok
 
 
 def _check_r2_like(rc: RuleCtx, rule: str, fi, val, env, what: str, adjusted: bool):
@@ -174,13 +201,16 @@ def run(ctx):
         want = ref(text, env)
         rc.expect_equal("M", fi, out.value(), want, f"metrics.{name}(y, y_hat" + (", eps)" if "eps" in text else ")"))
         programs += 1
+    both = {}
+    ev, env = _metric_env(rc)
     for adjusted in (False, True):
-        ev, env = _metric_env(rc)
         args = dict(env)
         args["r2"] = Obj("enum", "R2.adjusted" if adjusted else "R2.classic")
         fi, out = rc.eval_fn("metrics.r2", args)
+        both[adjusted] = out.value()
         _check_r2_like(rc, "M-r2", fi, out.value(), env, f"metrics.r2[{'adjusted' if adjusted else 'classic'}]", adjusted)
         programs += 1
+    _check_adjusted_of_classic(rc, "M-r2", fi, both[False], both[True], ref("N", env), "metrics.r2")
     # the default must be the classic variant
     fi = rc.func("metrics.r2")
     d = fi.param_default("r2")
@@ -250,12 +280,15 @@ def run(ctx):
         want = ref(METRIC_REFS[metric], renv)
         rc.expect_equal("W", fi, out.value(), want, f"linear_fit.{wname} == metrics.{metric}(y, m*x+b" + (", eps)" if has_eps else ")"))
         programs += 1
+    both = {}
+    ev, args, renv = wrapper_env()
     for adjusted in (False, True):
-        ev, args, renv = wrapper_env()
         call = {"x": args["x"], "y": args["y"], "coef": args["coef"], "r2": Obj("enum", "R2.adjusted" if adjusted else "R2.classic")}
         fi, out = rc.eval_fn("linear_fit.linear_r2", call)
+        both[adjusted] = out.value()
         _check_r2_like(rc, "W", fi, out.value(), renv, f"linear_fit.linear_r2[{'adjusted' if adjusted else 'classic'}]", adjusted)
         programs += 1
+    _check_adjusted_of_classic(rc, "W", fi, both[False], both[True], ref("N", renv), "linear_fit.linear_r2")
     # linear_fit_residuals: residuals of the endpoint fit
     ev = rc.new_eval()
     x = ev.symbol("x", True)
@@ -298,7 +331,7 @@ def run(ctx):
         programs += 1
 
     # ---- B: best-fit r2 -------------------------------------------------------
-    _best_fit(rc)
+    section(rc, _best_fit)
     programs += 2
     res.rule("D-dtype", "no metric / fit helper puts a real value into an array that inherits the dtype of its argument (np.*_like, .copy(): an integer-typed x or y "
              "would truncate the fitted values before the metric is taken)")
